@@ -2,6 +2,7 @@ import Wal.Model.Wire
 import Wal.Model.Reader
 import Wal.Model.Wawk
 import Wal.Model.WawkParse
+import Wal.Lemmas.OptMain
 /-!
 # `walmodel`: line-protocol driver around the executable model
 
@@ -74,6 +75,15 @@ def step (st : St) (toks : List String) : St × String :=
         | .error (.unsupported m) => (st, "unsup " ++ hexOfString m)
         | .error (.error m) => (st, "err " ++ hexOfString m)
         | .error (.exit c) => (st, "exit " ++ toString c))
+    | _, _ => (st, "bad-request")
+  | "cover" :: flags :: fuel :: rest =>
+    -- does the evaluation about to be requested fall under the global theorems? (no effect on the state)
+    match fuel.toNat?, parseSx rest with
+    | some n, some (e, []) =>
+      let st0 := { st with out := [] }
+      let r := match Bal.walEvalR (parseMode flags) n st0 e with | .ok _ => "1" | .error _ => "0"
+      let f := match Opt.walEvalF n st0 e with | .ok _ => "1" | .error _ => "0"
+      (st, "cov R" ++ r ++ " F" ++ f)
     | _, _ => (st, "bad-request")
   | ["runreset"] =>
     -- `SEval.reset()` + reload of std: everything as on a fresh interpreter, the loaded traces rewound to index 0
